@@ -26,11 +26,13 @@ const (
 	actNone c15Act = iota
 	actConsume
 	actRedraw
-	actConsumeRedraw // BatchCmd{Redraw, Consume}
-	actNested        // BatchCmd{BatchCmd{Redraw}, []Command{Consume}}
-	actFocus         // FocusWidgetCmd(target)
-	actFocusBatch    // BatchCmd{FocusWidgetCmd(target), Redraw}
-	actRefresh       // RefreshCmd + Redraw
+	actConsumeRedraw     // BatchCmd{Redraw, Consume}
+	actNested            // BatchCmd{BatchCmd{Redraw}, []Command{Consume}}
+	actFocus             // FocusWidgetCmd(target)
+	actFocusBatch        // BatchCmd{FocusWidgetCmd(target), Redraw}
+	actRefresh           // RefreshCmd + Redraw
+	actConsumeThenRedraw // BatchCmd{Consume, Redraw}: order inside a batch does not matter
+	actConsumeThenFocus  // BatchCmd{[]Command{Consume}, FocusWidgetCmd(target)}
 	numActs
 )
 
@@ -139,6 +141,10 @@ func (wd *c15Widget) handle(ev vaxis.Event, phase string) (vxfw.Command, error) 
 		return vxfw.BatchCmd{vxfw.FocusWidgetCmd(w.widgets[wd.focusT[phase+"/"+class]].self), vxfw.RedrawCmd{}}, nil
 	case actRefresh:
 		return vxfw.BatchCmd{vxfw.RefreshCmd{}, vxfw.RedrawCmd{}}, nil
+	case actConsumeThenRedraw:
+		return vxfw.BatchCmd{vxfw.ConsumeEventCmd{}, vxfw.RedrawCmd{}}, nil
+	case actConsumeThenFocus:
+		return vxfw.BatchCmd{[]vxfw.Command{vxfw.ConsumeEventCmd{}}, vxfw.FocusWidgetCmd(w.widgets[wd.focusT[phase+"/"+class]].self)}, nil
 	}
 	return nil, nil
 }
@@ -231,7 +237,7 @@ func (w *vxfwWorld) Describe() any {
 		for k, a := range wd.acts {
 			if a != actNone {
 				s := fmt.Sprintf("%s=%s", k, actName(a))
-				if a == actFocus || a == actFocusBatch {
+				if a == actFocus || a == actFocusBatch || a == actConsumeThenFocus {
 					s += fmt.Sprintf("(%c)", 'A'+wd.focusT[k])
 				}
 				acts = append(acts, s)
@@ -248,7 +254,7 @@ func (w *vxfwWorld) Describe() any {
 }
 
 func actName(a c15Act) string {
-	return []string{"none", "consume", "redraw", "consume+redraw", "nested-batch(redraw,consume)", "focus", "batch(focus,redraw)", "refresh"}[a]
+	return []string{"none", "consume", "redraw", "consume+redraw", "nested-batch(redraw,consume)", "focus", "batch(focus,redraw)", "refresh", "batch(consume,redraw)", "batch([consume],focus)"}[a]
 }
 
 func sendString(s c15Send) string {
@@ -336,7 +342,7 @@ func (w *vxfwWorld) Build(t *simrt.Tape, spec RunSpec) {
 					continue
 				}
 				a := c15Act(1 + t.Draw(int(numActs)-1))
-				if (a == actFocus || a == actFocusBatch) && (ph == "capture" || cl == "init" && t.Draw(2) == 0) {
+				if (a == actFocus || a == actFocusBatch || a == actConsumeThenFocus) && (ph == "capture" || cl == "init" && t.Draw(2) == 0) {
 					a = actRedraw
 				}
 				wd.acts[ph+"/"+cl] = a
@@ -621,7 +627,10 @@ func (m *c15Model) apply(e *c15Log) (consumed bool, mm *c15Mismatch) {
 	case actRefresh:
 		m.redrawAt = append(m.redrawAt, e.At)
 		m.refresh = append(m.refresh, e.Seq)
-	case actFocus, actFocusBatch:
+	case actConsumeThenRedraw:
+		m.redrawAt = append(m.redrawAt, e.At)
+		return true, nil
+	case actFocus, actFocusBatch, actConsumeThenFocus:
 		tgt := m.w.widgets[e.Wid].focusT[e.Phase+"/"+e.Class]
 		if tgt != m.focused {
 			old := m.focused
@@ -647,6 +656,9 @@ func (m *c15Model) apply(e *c15Log) (consumed bool, mm *c15Mismatch) {
 		}
 		if e.Act == actFocusBatch {
 			m.redrawAt = append(m.redrawAt, e.At)
+		}
+		if e.Act == actConsumeThenFocus {
+			return true, nil
 		}
 	}
 	return false, nil
